@@ -15,9 +15,9 @@ Fixpoint lookup_val (n : str) (d : list (val * val)) : option val :=
   | _ :: d' => lookup_val n d'
   end.
 
-Definition group_fix : bool := false.    (* true once C02-group-key-scalar is repaired: non-mappings are rejected *)
+Definition group_fix : bool := true.     (* 895597a: a non-mapping given for a group key is rejected *)
 
-Definition group_parse (yl : str -> lres) (fs : list (str * ty)) (v : val) : ares :=
+Definition group_parse_g (repaired : bool) (yl : str -> lres) (fs : list (str * ty)) (v : val) : ares :=
   match v with
   | VDict d =>
       if negb (forallb (fun kv => match fst kv with VStr n => is_some (field_ty n fs) | _ => false end) d)
@@ -36,8 +36,9 @@ Definition group_parse (yl : str -> lres) (fs : list (str * ty)) (v : val) : are
                end
            end) fs []
   | VNone => AOk VNone
-  | _ => if group_fix then AErr ErrValue else AOk v
+  | _ => if repaired then AErr ErrValue else AOk v
   end.
+Definition group_parse := group_parse_g group_fix.
 
 Definition group_conforms (fs : list (str * ty)) (w : val) : bool :=
   match w with
@@ -57,5 +58,5 @@ Definition group_class (yl : str -> lres) (fs : list (str * ty)) (v : val) : N :
                                           | VStr n => match field_ty n fs with Some t => class_in yl t (snd kv) | None => 0 end
                                           | _ => 0
                                           end) d)
-  | _ => 7
+  | _ => if group_fix then 0 else 7
   end%N.
